@@ -99,7 +99,8 @@ class Gen:
         self._empty: Any = None
 
     # ---- sources
-    def new_source(self, role: str = "aux", kind: str | None = None, term: Any = "policy", nonconf: bool | None = None) -> Any:
+    def new_source(self, role: str = "aux", kind: str | None = None, term: Any = "policy", nonconf: bool | None = None,
+                   min_offset: float = 0) -> Any:
         r = self.r
         kind = kind or r.choice(self.kinds)
         if nonconf is None:
@@ -110,7 +111,7 @@ class Gen:
             pol = self.term_policy.get(role, "auto")
             term = pol(r) if callable(pol) else pol
         name = "s%d" % len(self.sources)
-        start = HOT_START if kind == "hot" else 0
+        start = HOT_START if kind == "hot" else min_offset
         msgs = gen_timeline(r, self.domain, maxlen=self.maxlen, start=start, term=term, nonconf=nonconf)
         if kind == "iter":
             term_kind = next((k for (_, k, _) in msgs if k in "EC"), None)
@@ -132,6 +133,11 @@ class Gen:
         if len(self.sources) < self.max_sources:
             return self.new_source(role)
         return self.r.choice(self.sources)
+
+    def delayed_src(self, role: str = "closing") -> Any:
+        """A dedicated cold source whose first notification comes strictly later than its subscription (closing
+        sources of window_when / buffer_when: one that fires at once re-opens a window in the same instant, forever)."""
+        return self.new_source(role, kind="cold", min_offset=5)
 
     def inners(self, n: int = 2, role: str = "inner") -> list:
         return [self.src(role) for _ in range(n)]
@@ -241,10 +247,10 @@ def _acc(g: Gen, role: str = "accumulator") -> tuple:
     return g.fn(role, f), k
 
 
-def _inner_mapper(g: Gen, role: str = "mapper", n: int = 2, limit: int | None = None) -> tuple:
+def _inner_mapper(g: Gen, role: str = "mapper", n: int = 2, limit: int | None = None, delayed: bool = False) -> tuple:
     """A user mapper returning probe sources from a pool fixed at build time (round robin by call number);
     after `limit` calls it returns the empty probe source."""
-    pool = g.inners(n)
+    pool = [g.delayed_src(role)] if delayed else g.inners(n)
     empty = g.empty() if limit is not None else None
     cnt = [0]
 
@@ -1011,7 +1017,7 @@ def _(g: Gen) -> tuple:
 
 @entry("window_when", "cold_ok nested aux uses_callbacks")
 def _(g: Gen) -> tuple:
-    f, d = _inner_mapper(g, "closing_mapper")
+    f, d = _inner_mapper(g, "closing_mapper", delayed=True)
     return ops.window_when(f), "window_when(%s)" % d
 
 
@@ -1050,7 +1056,7 @@ def _(g: Gen) -> tuple:
 
 @entry("buffer_when", "cold_ok aux uses_callbacks")
 def _(g: Gen) -> tuple:
-    f, d = _inner_mapper(g, "closing_mapper")
+    f, d = _inner_mapper(g, "closing_mapper", delayed=True)
     return ops.buffer_when(f), "buffer_when(%s)" % d
 
 
